@@ -172,6 +172,10 @@ class VersionConverter(object):
         # Reset status messages
         self.conversion_log = []
 
+        root = tree.getroot()
+        if root.tag != "odML":
+            raise ParserException("Expecting <odML> tag but got <%s>." % root.tag)
+
         tree = self._replace_same_name_entities(tree)
         root = tree.getroot()
         root.set("version", FORMAT_VERSION)
